@@ -13,14 +13,15 @@ git checkout -- evidence 2>/dev/null
 cd "$VERIF_GCOV"
 for d in w2c2-* wasi; do
   [ -d "$d" ] || continue
-  (cd "$d" && for g in *.gcda; do gcov -b -o . "$g" >/dev/null 2>&1; done)
+  # one output directory per counter file: gcov names its report after the source and would overwrite the previous one
+  (cd "$d" && for g in *.gcda; do mkdir -p "gc-$g" && (cd "gc-$g" && gcov -b -o .. "../$g" >/dev/null 2>&1); done)
 done
 python3 - <<'PY'
 import glob, os, re, collections
 root = os.environ["VERIF_GCOV"]
 lines = collections.defaultdict(dict)          # file -> line -> executed?
 text = {}
-for g in glob.glob(os.path.join(root, "*", "*.gcov")):
+for g in glob.glob(os.path.join(root, "*", "gc-*", "*.gcov")):
     src = None
     for l in open(g, errors="replace"):
         m = re.match(r"\s*([^:]+):\s*(\d+):(.*)", l)
